@@ -142,3 +142,5 @@ func TestReplay(t *testing.T) {
 	}
 	t.Logf("case passes")
 }
+
+func jsonMarshal(v interface{}) ([]byte, error) { return json.Marshal(v) }
